@@ -24,7 +24,14 @@ pub struct Outcome {
   pub js: Option<String>,
   pub ts_trace: Option<Trace>,
   pub wasm_instrs: u64,
+  /// the same module under the real engine (node >= 22), when one is installed and the leg is on
+  pub v8_trace: Option<Trace>,
+  /// the emitted TypeScript as it is under `node --experimental-strip-types`
+  pub ts_native_trace: Option<Trace>,
 }
+
+/// bit 1: run the emitted wasm under the real engine; bit 2: run the emitted TypeScript natively
+pub static REAL_ENGINE_LEGS: std::sync::atomic::AtomicU32 = std::sync::atomic::AtomicU32::new(0);
 
 pub fn limits() -> Limits {
   Limits { max_steps: 30_000_000, max_depth: 4000, max_lines: 20_000 }
@@ -74,7 +81,33 @@ pub fn run_all_but_ts(user: &Project, entry: &str, lim: &Limits) -> Outcome {
     Ok(js) => o.js = Some(js),
     Err(e) => o.erase_err = Some(e),
   }
+  let legs = REAL_ENGINE_LEGS.load(std::sync::atomic::Ordering::SeqCst);
+  let finished = |t: &Option<Trace>| t.as_ref().map(|t| !matches!(t.ending, Ending::StepLimit | Ending::Harness(_))).unwrap_or(false);
+  if legs & 1 != 0 && finished(&o.wasm_trace) {
+    o.v8_trace = crate::v8run::run_wasm(&compiled.wasm, &compiled.loader_js, &compiled.main_fn, lim, std::time::Duration::from_secs(20)).map(normalise);
+  }
+  if legs & 2 != 0 && finished(&o.wasm_trace) {
+    o.ts_native_trace = crate::v8run::run_ts(&compiled.ts, lim, std::time::Duration::from_secs(20)).map(normalise);
+  }
   o
+}
+
+/// do two runs of the same program by two engines agree (lines and class of ending; a panic
+/// message must be equal; stack exhaustion happens at engine-specific depths, so only the fact is
+/// compared then)?
+pub fn engines_agree(a: &Trace, b: &Trace) -> bool {
+  if matches!(a.ending, Ending::StackExhausted) && matches!(b.ending, Ending::StackExhausted) {
+    return true;
+  }
+  if ending_class(&a.ending).split('(').next() != ending_class(&b.ending).split('(').next() {
+    return false;
+  }
+  if let (Ending::Panic(x), Ending::Panic(y)) = (&a.ending, &b.ending) {
+    if x != y {
+      return false;
+    }
+  }
+  a.lines == b.lines
 }
 
 pub fn run_ts_batch(outs: &mut [&mut Outcome], lim: &Limits, timeout_ms: u64) {
